@@ -315,7 +315,7 @@ struct Th<'a> {
     arcs: Vec<Vec<LArc>>,
 }
 
-fn run_thread(t: usize, sh: StdArc<Shared>, o: StdArc<Objs>) {
+fn run_thread(t: usize, sh: StdArc<Shared>, o: StdArc<Objs>, owned: Vec<(usize, LArc)>) {
     CUR_THREAD.with(|c| *c.borrow_mut() = t);
     if t > 0 {
         sh.note(NOTE_THREAD_ID, t as i64, thread_id_num(&loom::thread::current()));
@@ -340,6 +340,10 @@ fn run_thread(t: usize, sh: StdArc<Shared>, o: StdArc<Objs>) {
             th.rx = lock(&o.rx).take();
         }
         th.tx = o.tx.as_ref().map(|m| lock(m).clone());
+    }
+    // handles cloned for this thread before it was spawned travel inside its closure (`owned`)
+    for (x, a) in owned {
+        th.arcs[x].push(a);
     }
     for (x, a) in lock(&o.mailbox[t]).drain(..) {
         th.arcs[x].push(a);
@@ -525,7 +529,9 @@ impl<'a> Th<'a> {
             Spawn { t } => {
                 let (sh2, o2) = (self.sh.clone(), self.o.clone());
                 let tt = t as usize;
-                let h = loom::thread::spawn(move || run_thread(tt, sh2, o2));
+                // the closure itself owns the loom Arc handles meant for the new thread
+                let owned: Vec<(usize, LArc)> = lock(&o.mailbox[tt]).drain(..).collect();
+                let h = loom::thread::spawn(move || run_thread(tt, sh2, o2, owned));
                 *lock(&o.threads[tt]) = Some(h.thread().clone());
                 *lock(&o.joins[tt]) = Some(h);
                 None
@@ -868,7 +874,7 @@ pub fn run_with(
             sh2.note(NOTE_THREAD_ID, 0, thread_id_num(&loom::thread::current()));
             let o = StdArc::new(build_objs(&sh2));
             *lock(&o.threads[0]) = Some(loom::thread::current());
-            run_thread(0, sh2.clone(), o);
+            run_thread(0, sh2.clone(), o, vec![]);
         })
     }));
     if had_hook {
